@@ -215,4 +215,23 @@ theorem numVal_numLexeme (st : PState) (s : List Char) (hg : goodNum s = true) :
     decide +kernel
   · rw [hs]; exact numVal_body00 v hwf hz
 
+/-- the value an item denotes, independent of the printer state -/
+def itemVal : PItem → Rat
+  | .num s => numVal s
+  | .flag b => if b then 1 else 0
+
+theorem itemsVals_eq : ∀ (items : List PItem) (st : PState), GoodItems items → itemsVals st items = items.map itemVal := by
+  intro items
+  induction items with
+  | nil => intro st _; rfl
+  | cons it r ih =>
+    intro st hg
+    have ihr := ih (emitItem st it).1 (fun s hs => hg s (by simp [hs]))
+    unfold itemsVals at ihr ⊢
+    simp only [itemsToks, List.map_cons, ihr]
+    congr 1
+    cases it with
+    | num s => simp only [itemTok, tokValD, tokVal, Option.getD_some, itemVal]; exact numVal_numLexeme st s (hg s (by simp))
+    | flag b => simp [itemTok, tokValD, tokVal, itemVal]
+
 end Verif.Proofs.SvgVal
